@@ -137,6 +137,8 @@ class Roles:
             hc = hash_calls(f)
             if hc and any(idx == c.ref for c in hc for _, idx in at_subscripts(f)):
                 self.checked.append(f)
+            elif hc and any(r.o and strip_bitcasts(f, r.o[0]) in {c.ref for c in hc} for r in f.returns()):
+                self.checked.append(f)        # returns the (range-checked) index instead of the bucket
         cnames = {f.name for f in self.checked}
         for f in fns:
             calls_checked = [c for c in f.all_insts() if c.op == 'call' and c.callee in cnames]
@@ -157,9 +159,11 @@ class Roles:
                             self.sweep.append(f)
             geos = set()
             for c in calls_checked:
-                if len(c.o) >= 4:
-                    h, n = f.get(c.o[2]), f.get(c.o[3])
-                    geos.add((fld(f, h), fld(f, n)))
+                # the (function, count) pair handed over, wherever it sits in the argument list
+                hs = [fld(f, f.get(o)) for o in c.o if isinstance(o, str) and fld(f, f.get(o)) in ('bucket.hash', 'bucket.rh.hash')]
+                ns = [fld(f, f.get(o)) for o in c.o if isinstance(o, str) and fld(f, f.get(o)) in ('bucket.count', 'bucket.rh.count')]
+                if len(hs) == 1 and len(ns) == 1:
+                    geos.add((hs[0], ns[0]))
             if ('bucket.hash', 'bucket.count') in geos and ('bucket.rh.hash', 'bucket.rh.count') in geos:
                 self.pa_lookup.append(f)
             # walkers: subscript by an induction variable (phi), not by a hash result / loaded sweep index
@@ -172,6 +176,20 @@ class Roles:
 
     def names(self, role):
         return [f.name for f in getattr(self, role)]
+
+
+def focus_hash(m):
+    """hash.c with every private helper that carries no role inlined into its callers (model.focus): the lookup,
+    cleaner, sweep, walkers and the capacity setter stay callable functions, everything else is implementation detail"""
+    roles = Roles(m)
+    keep = set()
+    for r in ('checked', 'cleaner', 'sweep', 'pa_lookup', 'walkers'):
+        keep |= set(roles.names(r))
+    mod = m.plain.get('hash')
+    for g in (mod.defined() if mod is not None else []):
+        if any(c.op == 'call' and c.callee == 'realloc' for c in g.all_insts()):
+            keep.add(g.name)
+    return m.focus('hash', keep)
 
 
 def callgraph(mod):
@@ -221,6 +239,22 @@ def _pending_facts(f, facts):
     return pend
 
 
+def _infeasible(f, facts):
+    """a fact set that cannot hold: x < x, x == y and x != y, pending and not pending"""
+    fs = set(facts)
+    pend = set()
+    for (op, x, y) in fs:
+        if op == 'ult' and (x == y or same_value_loads(f, x, y)):
+            return True
+        if op == 'eq' and (('ne', x, y) in fs or ('ne', y, x) in fs or ('ult', x, y) in fs or ('ult', y, x) in fs):
+            return True
+        if op == 'ule' and (('ult', y, x) in fs):
+            return True
+        if y == 'null' and is_load_of(f, x, 'bucket.rh.hash') and op in ('eq', 'ne'):
+            pend.add(op)
+    return pend == {'eq', 'ne'}
+
+
 def classify_pa(f, ref, at_ins, field, cover=False, completer_dominates=None):
     """Is `ref` (used at `at_ins`) a pending-aware read of bucket.<field> / rh.<field>?
     returns (ok, explanation).  cover=True asks for PA-cover (max of both counts) instead of PA-eff."""
@@ -231,7 +265,40 @@ def classify_pa(f, ref, at_ins, field, cover=False, completer_dominates=None):
     ref = strip_bitcasts(f, ref)
     ins = f.get(ref) if isinstance(ref, str) else None
 
-    def leaf_ok(v, facts, where):
+    def leaf_ok(v, facts, where, depth=0):
+        # first as is; otherwise split on a phi that the value or the facts mention (a helper's merged result, a cached
+        # "target" geometry): each alternative with the facts of its own edge, infeasible combinations dropped
+        ok, w = _leaf_ok1(v, facts, where)
+        if ok or depth >= 3:
+            return ok, w
+        cands = []
+        core = f.get(v) if isinstance(v, str) else None
+        while core is not None and core.op in ('zext', 'trunc', 'bitcast'):
+            core = f.get(core.o[0]) if isinstance(core.o[0], str) else None
+        if core is not None and core.op == 'phi':
+            cands.append(core)
+        for (op, x, y) in facts:
+            for r in (x, y):
+                ri = f.get(r) if isinstance(r, str) else None
+                if ri is not None and ri.op == 'phi' and ri.ty == 'i64' and ri not in cands:
+                    cands.append(ri)
+        for P in cands[:2]:
+            results = []
+            for pv_, bb_ in zip(P.o, P.x['bb']):
+                sub = _k(strip_bitcasts(f, pv_)) if isinstance(pv_, str) else pv_
+                fs = set()
+                for (op, x, y) in facts:
+                    fs.add((op, sub if x == P.ref else x, sub if y == P.ref else y))
+                fs |= set(fc.edge_facts(f.bb[bb_], P.block))
+                if _infeasible(f, fs):
+                    continue
+                v2 = sub if (core is P) else v
+                results.append(leaf_ok(v2, frozenset(fs), where + ' / %s=%s' % (P.ref, sub), depth + 1))
+            if results and all(o for o, _ in results):
+                return True, results[0][1]
+        return ok, w
+
+    def _leaf_ok1(v, facts, where):
         vi = f.get(v) if isinstance(v, str) else None
         vi0 = vi
         while vi is not None and vi.op in ('zext', 'trunc', 'bitcast'):
@@ -268,7 +335,9 @@ def classify_pa(f, ref, at_ins, field, cover=False, completer_dominates=None):
             facts = fc.edge_facts(pb, ins.block)
             vi = f.get(v) if isinstance(v, str) else None
             if vi is not None and vi.op == 'phi':
-                ok, w = classify_pa(f, v, vi, field, cover, completer_dominates)
+                ok, w = leaf_ok(_k(v), facts, 'edge %s->%s' % (bb, ins.block.name))
+                if not ok:
+                    ok, w = classify_pa(f, v, vi, field, cover, completer_dominates)
             else:
                 ok, w = leaf_ok(_k(v), facts, 'edge %s->%s' % (bb, ins.block.name))
                 if not ok and len(pb.pred) > 1:
